@@ -29,7 +29,7 @@ From Codegen Require Import Codegen CallArity.
 
 Definition C07_expected_ia : ia_kind := IaFrozen.
 Definition C07_expected_untouched : ut_kind := UtZero.
-Definition C07_expected_bind : bind_kind := BkStrictNonEmpty.
+Definition C07_expected_bind : bind_kind := BkStrict.
 
 (** the facts of the tree with b1ee1b9, 24c6733, 3b18255 applied, as a function of the two
     switchable ones *)
